@@ -11,10 +11,12 @@
      nushell quoted and bare forms, ~"…" form, with or without blank.
      powershell '...' with doubled quotes (every value with an active character, a quote or a leading @),
             bare otherwise, with or without blank (since the repair recorded as C03-powershell-quote).
-   REFUTED with witnesses: xonsh (raw literal), tcsh (braces), oil (no quoting).
+     xonsh  '...' python literals with backslash and quote escaped (every value that needs quoting; bare words
+            have no reader), since the repair recorded as C03-xonsh-quote.
+   REFUTED with witnesses: tcsh (braces), oil (no quoting).
    Stretch (correspondence + oracle only): zsh's four quoted states and the ~/named-directory
    branch, xonsh '…' literals, tcsh for values without braces, verbatim formats. *)
-From CV Require Import Base.Str Gen.Tables Model.Common Model.Shells Spec.Readers Proofs.Quoting Proofs.PowerShell.
+From CV Require Import Base.Str Gen.Tables Model.Common Model.Shells Spec.Readers Proofs.Quoting Proofs.PowerShell Proofs.Xonsh.
 
 Theorem C03_bash_quoted : forall s,
   read_bash (B [34] ++ replace1 bash_escapingQuotedReplacer s ++ B [34]) = Some s.
@@ -61,9 +63,13 @@ Theorem C03_powershell : forall v (blank : bool), v <> [] ->
 Proof. exact powershell_roundtrip. Qed.
 Print Assumptions C03_powershell.
 
-Theorem C03_xonsh_refuted : exists v, read_xonsh_sp (xonsh_quote v) = Reads None.
-Proof. exact xonsh_refuted_quote. Qed.
-Print Assumptions C03_xonsh_refuted.
+Theorem C03_xonsh : forall v (blank : bool),
+  let val := replace1 xonsh_sanitizer v in
+  read_xonsh_sp (xonsh_quote v ++ (if blank then [c_sp] else [])) =
+    if contains_any val xonsh_ActionRawValues_any1 then Reads (Some (val, blank))
+    else read_xonsh_sp (val ++ (if blank then [c_sp] else [])).
+Proof. exact xonsh_roundtrip. Qed.
+Print Assumptions C03_xonsh.
 
 Theorem C03_tcsh_refuted : exists v, read_tcsh (replace1 tcsh_quoter (replace1 tcsh_sanitizer v)) <> Some v.
 Proof. exact tcsh_refuted. Qed.
